@@ -60,8 +60,8 @@ theorem unknown_inert (env : Env) (impl : FmtImpl) (cfg : Cfg) (rec : Rec)
   rw [eraseSchema_eq]
   exact evalStep_unknown_sim env impl cfg rec pre post key v inst hk hid href hc b st
 
-/-- **Keywords next to `$ref` are ignored**: with a (non-null) `$ref` present, any other key other
-    than the class's id key can be inserted without effect.
+/-- **Keywords next to `$ref` are ignored**: with a (non-null) `$ref` present, any other key — the
+    class's id key included — can be inserted without effect.
 
     FALSE as stated for arbitrary validator classes (`ref_siblings_inert_counterexample`): `cfg` may
     bind `$ref` to a keyword function that reads sibling keywords.  It holds when the function bound
@@ -70,7 +70,7 @@ theorem unknown_inert (env : Env) (impl : FmtImpl) (cfg : Cfg) (rec : Rec)
 def ref_siblings_inert_statement : Prop :=
     ∀ (env : Env) (impl : FmtImpl) (cfg : Cfg) (rec : Rec)
     (pre post : List (Str × Json)) (key : Str) (v ref inst : Json) (b : Option Nat) (st : RState)
-    (_hid : key ≠ cfg.idKey) (_hkey : key ≠ skey "$ref")
+    (_hkey : key ≠ skey "$ref")
     (_href : Json.lookup (skey "$ref") (pre ++ post) = some ref) (_hnn : ref ≠ .null),
     ((evalStep env impl cfg rec inst (.obj (pre ++ (key, v) :: post)) b st).errs.map eraseSchema
         = (evalStep env impl cfg rec inst (.obj (pre ++ post)) b st).errs.map eraseSchema)
@@ -83,7 +83,7 @@ def ref_siblings_inert_statement : Prop :=
     `$ref` (if any) reads no sibling keywords — or the inserted key is not a consulted name -/
 theorem ref_siblings_inert_partial (env : Env) (impl : FmtImpl) (cfg : Cfg) (rec : Rec)
     (pre post : List (Str × Json)) (key : Str) (v ref inst : Json) (b : Option Nat) (st : RState)
-    (hid : key ≠ cfg.idKey) (hkey : key ≠ skey "$ref")
+    (hkey : key ≠ skey "$ref")
     (href : Json.lookup (skey "$ref") (pre ++ post) = some ref) (hnn : ref ≠ .null)
     (hfn : (∀ f, lookupS (skey "$ref") cfg.keywords = some f → f.readsSiblings = false)
             ∨ key ∉ Spec.consulted) :
@@ -94,12 +94,12 @@ theorem ref_siblings_inert_partial (env : Env) (impl : FmtImpl) (cfg : Cfg) (rec
     ∧ (evalStep env impl cfg rec inst (.obj (pre ++ (key, v) :: post)) b st).st
         = (evalStep env impl cfg rec inst (.obj (pre ++ post)) b st).st := by
   rw [eraseSchema_eq]
-  exact evalStep_refSibling_sim env impl cfg rec pre post key v ref inst hid hkey href hnn hfn b st
+  exact evalStep_refSibling_sim env impl cfg rec pre post key v ref inst hkey href hnn hfn b st
 
 /-- the original statement for the classes of the four drafts (with any format checker) -/
 theorem ref_siblings_inert_drafts (d : Draft) (fc : Option FormatChecker) (env : Env) (impl : FmtImpl) (rec : Rec)
     (pre post : List (Str × Json)) (key : Str) (v ref inst : Json) (b : Option Nat) (st : RState)
-    (hid : key ≠ (d.cfg fc).idKey) (hkey : key ≠ skey "$ref")
+    (hkey : key ≠ skey "$ref")
     (href : Json.lookup (skey "$ref") (pre ++ post) = some ref) (hnn : ref ≠ .null) :
     ((evalStep env impl (d.cfg fc) rec inst (.obj (pre ++ (key, v) :: post)) b st).errs.map eraseSchema
         = (evalStep env impl (d.cfg fc) rec inst (.obj (pre ++ post)) b st).errs.map eraseSchema)
@@ -107,17 +107,33 @@ theorem ref_siblings_inert_drafts (d : Draft) (fc : Option FormatChecker) (env :
         = (evalStep env impl (d.cfg fc) rec inst (.obj (pre ++ post)) b st).stop
     ∧ (evalStep env impl (d.cfg fc) rec inst (.obj (pre ++ (key, v) :: post)) b st).st
         = (evalStep env impl (d.cfg fc) rec inst (.obj (pre ++ post)) b st).st :=
-  ref_siblings_inert_partial env impl (d.cfg fc) rec pre post key v ref inst b st hid hkey href hnn
+  ref_siblings_inert_partial env impl (d.cfg fc) rec pre post key v ref inst b st hkey href hnn
     (.inl fun f hf => by
       have h : some f = some KwFn.ref := hf.symm.trans (draft_ref_bound d)
       cases h; rfl)
+
+/-- **An id next to `$ref` is ignored** (the repaired defect): in each of the four drafts, with a
+    (non-null) `$ref` present, inserting the draft's id key with ANY value, anywhere among the keys,
+    leaves the errors (up to the recorded enclosing schema), the stop reason and the resolver state
+    unchanged — in particular it establishes no base URI for the reference. -/
+theorem id_next_to_ref_inert (d : Draft) (fc : Option FormatChecker) (env : Env) (impl : FmtImpl) (rec : Rec)
+    (pre post : List (Str × Json)) (v ref inst : Json) (b : Option Nat) (st : RState)
+    (href : Json.lookup (skey "$ref") (pre ++ post) = some ref) (hnn : ref ≠ .null) :
+    ((evalStep env impl (d.cfg fc) rec inst (.obj (pre ++ (d.idKey, v) :: post)) b st).errs.map eraseSchema
+        = (evalStep env impl (d.cfg fc) rec inst (.obj (pre ++ post)) b st).errs.map eraseSchema)
+    ∧ (evalStep env impl (d.cfg fc) rec inst (.obj (pre ++ (d.idKey, v) :: post)) b st).stop
+        = (evalStep env impl (d.cfg fc) rec inst (.obj (pre ++ post)) b st).stop
+    ∧ (evalStep env impl (d.cfg fc) rec inst (.obj (pre ++ (d.idKey, v) :: post)) b st).st
+        = (evalStep env impl (d.cfg fc) rec inst (.obj (pre ++ post)) b st).st :=
+  ref_siblings_inert_drafts d fc env impl rec pre post d.idKey v ref inst b st
+    (by cases d <;> decide +kernel) href hnn
 
 /-- a class binding `$ref` to the draft-3/4 `minimum` function (which reads `exclusiveMinimum`):
     `{"$ref": 5}` accepts `5`, `{"exclusiveMinimum": true, "$ref": 5}` rejects it -/
 theorem ref_siblings_inert_counterexample : ¬ ref_siblings_inert_statement := by
   intro h
   have h1 := (h RefCex.env RefCex.impl RefCex.cfg RefCex.rec [] RefCex.post RefCex.key (.bool true)
-    RefCex.five RefCex.five none RefCex.st RefCex.hid RefCex.hkey RefCex.href RefCex.hnn).1
+    RefCex.five RefCex.five none RefCex.st RefCex.hkey RefCex.href RefCex.hnn).1
   have h2 := congrArg List.length h1
   rw [List.length_map, List.length_map] at h2
   exact RefCex.errs_differ h2
